@@ -4,6 +4,10 @@ use crate::iso::guarded;
 use debian_control::pgp::{strip_pgp_signature, Error};
 use serde_json::{json, Value};
 
+/// lines that resemble a marker without being one
+const LOOKALIKES: &[&str] = &[" -----BEGIN PGP SIGNATURE-----", "=-----END PGP SIGNATURE-----", "BEGIN PGP SIGNATURE-----", "x-----BEGIN PGP SIGNED MESSAGE-----",
+    "\u{feff}-----BEGIN PGP SIGNED MESSAGE-----", "-----BEGIN PGP SIGNED MESSAGE----- ", " -----BEGIN PGP SIGNED MESSAGE-----", "-----BEGIN PGP SIGNED MESSAGE-----x", "\u{a0}-----BEGIN PGP SIGNED MESSAGE-----", "-----begin pgp signed message-----"];
+
 fn line_text(class: &str, map: usize, n: usize) -> String {
     match class {
         "BM" => "-----BEGIN PGP SIGNED MESSAGE-----".into(),
@@ -12,7 +16,7 @@ fn line_text(class: &str, map: usize, n: usize) -> String {
         "E" => String::new(),
         "T" => [["Hash: SHA256", "Hello, world!", "iQIzBAEBCAAdFiEE"], ["é日 x", "=olY7", "a"], ["Comment: x", "  indented", "0"]][map % 3][n % 3].to_string(),
         "F" => ["Package: foo", "Origin: Debian", "# comment"][(n + map) % 3].to_string(),
-        "LK" => [" -----BEGIN PGP SIGNATURE-----", "=-----END PGP SIGNATURE-----", "BEGIN PGP SIGNATURE-----", "x-----BEGIN PGP SIGNED MESSAGE-----"][(n + map) % 4].to_string(),
+        "LK" => LOOKALIKES[(n + map) % LOOKALIKES.len()].to_string(),
         "D" => ["- -----BEGIN PGP SIGNATURE-----", "--", "-----BEGIN PGP SIGNATURE----- "][(n + map) % 3].to_string(),
         _ => "?".into(),
     }
@@ -29,8 +33,11 @@ pub fn run(case: &Value, _seed: u64) -> Outcome {
     let kind = case["k"].as_str().unwrap_or("");
     o.key = format!("{}{}{}", case["l"], lf, kind);
     o.nontrivial = classes.len() >= 2;
-    for map in 0..super::nmaps().min(3) {
-        let texts: Vec<String> = classes.iter().enumerate().map(|(n, c)| line_text(c, map, n)).collect();
+    // an unsigned text whose FIRST line is a look-alike: every look-alike is tried there
+    let sweep = if kind == "unsigned" && classes.first() == Some(&"LK") { LOOKALIKES.len() } else { 0 };
+    for map in 0..(super::nmaps().min(3) + sweep) {
+        let mut texts: Vec<String> = classes.iter().enumerate().map(|(n, c)| line_text(c, map.min(2), n)).collect();
+        if map >= super::nmaps().min(3) { texts[0] = LOOKALIKES[map - super::nmaps().min(3)].to_string(); }
         let mut input = texts.join("\n");
         if lf && !texts.is_empty() { input.push('\n'); }
         let feats = vec![format!("kind:{}", kind)];
